@@ -95,38 +95,6 @@ func (r *Runner) RunSeq(s Seq) error {
 	return nil
 }
 
-// kvSeq draws a random history of the generic/string families with clock advances.
-func kvSeq(g *Gen, id string, n int) Seq {
-	s := Seq{ID: id}
-	now := StartMs
-	tcp := g.Chance(0.3)
-	conn := -1
-	if tcp {
-		conn = 0
-	}
-	for i := 0; i < n; i++ {
-		var adv int64
-		if g.Chance(0.25) {
-			adv = []int64{1, 499, 500, 999, 1000, 1001, 1500, 2000, 10000, 100000}[g.R.Intn(10)]
-		}
-		now += adv
-		var cmd []string
-		switch {
-		case g.Chance(0.06):
-			cmd = g.OtherTypeCommand()
-		case g.Chance(0.04):
-			cmd = []string{"select", g.Pick([]string{"0", "1", "1", "2", "10"})}
-			if !tcp {
-				cmd = g.KvCommand(now)
-			}
-		default:
-			cmd = g.KvCommand(now)
-		}
-		s.Ops = append(s.Ops, Op{Conn: conn, Cmd: HexCmd(cmd), Adv: adv})
-	}
-	return s
-}
-
 // kvAlphabet is the small alphabet used for exhaustive depth-2 enumeration.
 func kvAlphabet() [][]string {
 	n := StartMs
@@ -173,12 +141,15 @@ type Family struct {
 func familySeq(f Family, g *Gen, id string, n int) Seq {
 	s := Seq{ID: id}
 	now := StartMs
-	tcp := g.Chance(0.3)
+	tcp := g.Chance(0.4)
 	conn := -1
 	if tcp {
 		conn = 0
 	}
 	for i := 0; i < n; i++ {
+		if tcp && g.Chance(0.15) {
+			conn = g.R.Intn(3)
+		}
 		var adv int64
 		if g.Chance(0.2) {
 			adv = []int64{1, 499, 500, 999, 1000, 1001, 1500, 2000, 10000, 100000}[g.R.Intn(10)]
@@ -190,8 +161,12 @@ func familySeq(f Family, g *Gen, id string, n int) Seq {
 			cmd = g.KvCommand(now)
 		case g.Chance(0.04):
 			cmd = g.OtherTypeCommand()
-		case tcp && g.Chance(0.04):
-			cmd = []string{"select", g.Pick([]string{"0", "1", "1", "2", "10"})}
+		case g.Chance(0.05):
+			cmd = []string{g.Pick([]string{"select", "SELECT"}), g.Pick([]string{"0", "1", "1", "2", "10", "11", "-1", "x", "99999999999999999999"})}
+		case g.Chance(0.02):
+			cmd = []string{"swapdb", g.Pick([]string{"0", "1", "2", "10", "x"}), g.Pick([]string{"0", "1", "2", "-1"})}
+		case g.Chance(0.01):
+			cmd = g.Pick2([][]string{{"ping"}, {"ping", "hi"}, {"echo", "a\r\nb"}, {"echo"}})
 		default:
 			cmd = f.Command(g, now)
 		}
@@ -265,66 +240,8 @@ func ListFamily() Family {
 		Command: func(g *Gen, now int64) []string { return g.ListCommand() }}
 }
 
-// RunKv writes the transcript of the generic/string suite.
-func RunKv(w *bufio.Writer, seed int64, tier string, replay string) error {
-	r := &Runner{W: w}
-	if sp := os.Getenv("VH_SEQS"); sp != "" {
-		f, err := os.Create(sp)
-		if err != nil {
-			return err
-		}
-		defer f.Close()
-		r.SeqW = bufio.NewWriter(f)
-		defer r.SeqW.Flush()
-	}
-	if replay != "" {
-		data, err := os.ReadFile(replay)
-		if err != nil {
-			return err
-		}
-		var rp struct {
-			Seq Seq `json:"seq"`
-		}
-		if err := json.Unmarshal(data, &rp); err != nil {
-			return err
-		}
-		return r.RunSeq(rp.Seq)
-	}
-	// exhaustive depth 2 over the alphabet from each base; base 2 and 3 also with the clock past the first deadline
-	alpha := kvAlphabet()
-	bases := kvBases()
-	id := 0
-	for bi, base := range bases {
-		advs := []int64{0}
-		if bi >= 2 {
-			advs = []int64{0, 1000, 1001}
-		}
-		for _, adv := range advs {
-			for _, c1 := range alpha {
-				for _, c2 := range alpha {
-					ops := append([]Op{}, base...)
-					ops = append(ops, Op{Conn: -1, Cmd: HexCmd(c1), Adv: adv}, Op{Conn: -1, Cmd: HexCmd(c2)})
-					if err := r.RunSeq(Seq{ID: fmt.Sprintf("x%d", id), Ops: ops}); err != nil {
-						return err
-					}
-					id++
-				}
-				if tier != "thorough" && bi >= 2 && adv != 0 {
-					// quick: with an advanced clock only the first command varies fully; second limited
-					continue
-				}
-			}
-		}
-	}
-	nRandom, length := 300, 40
-	if tier == "thorough" {
-		nRandom, length = 5000, 80
-	}
-	g := NewGen(seed)
-	for i := 0; i < nRandom; i++ {
-		if err := r.RunSeq(kvSeq(g, fmt.Sprintf("r%d", i), length)); err != nil {
-			return err
-		}
-	}
-	return nil
+// KvFamily is the generic/string suite.
+func KvFamily() Family {
+	return Family{Name: "kv", Alphabet: kvAlphabet(), Bases: kvBases(), AdvBases: []int{2, 3},
+		Command: func(g *Gen, now int64) []string { return g.KvCommand(now) }}
 }
